@@ -355,10 +355,15 @@ pub fn campaign(seed: u64, count: u64, max_ops: u64, ops_path: &str, impl_path: 
                 },
                 9..=12 => Op::Write(pattern(*r.pick(CHUNKS), r.next() % 1000)),
                 13..=15 => Op::Seek(gen_seek(&mut r, len, pos)),
-                16 => Op::SetLen(match r.below(4) {
+                16 => Op::SetLen(match r.below(7) {
                     0 => *r.pick(LENS) as u64,
                     1 => len,
                     2 => pos,
+                    // up to the next multiple of a (mini) sector size: the grown part ends exactly at a boundary
+                    3 => { let u = *r.pick(&[64u64, 512, 4096]); (len / u + 1) * u }
+                    // a little shorter, off every boundary: what follows in the sector is stale data
+                    4 => len.saturating_sub(1 + r.below(63)),
+                    5 => { let u = *r.pick(&[64u64, 512, 4096]); (len / u) * u }
                     _ => (len + r.below(3000)).saturating_sub(r.below(3000)),
                 }),
                 17 => Op::Flush,
